@@ -157,6 +157,10 @@ func (g *PG) strExpr(d int) string {
 	case 2:
 		return "(" + g.numExpr(d-1) + " + " + g.strExpr(d-1) + ")"
 	default:
+		if r.Intn(3) == 0 {
+			// text that Unicode normalisation would rewrite (precomposed U+09DF / U+09DC, e + combining acute)
+			return fmt.Sprintf("\"\u09b8\u09ae\u09df%d\u09ac\u09dc e\u0301\"", g.fresh())
+		}
 		return fmt.Sprintf(`"কথা%d"`, g.fresh())
 	}
 }
